@@ -670,3 +670,224 @@ def _(I, ctx, o, *r):
     if w == 'reverse': return ordering({'Less': 1, 'Equal': 0, 'Greater': -1}[o.variant])
     if o.variant != 'Equal': return o
     return r[0] if w == 'then' else I.call_value(ctx, ctx.cur_crate, r[0], [])
+
+
+def default_of(I, ctx, ty):
+    ty = ty.strip()
+    base = re.sub(r'^(\w+::)+', '', ty.split('<')[0])
+    inner = ty[ty.index('<') + 1:ty.rindex('>')] if '<' in ty else ''
+    if base in ('RwLock', 'Mutex', 'RefCell', 'Cell'):
+        args = split_top(inner)
+        return Agg('CellLike', [default_of(I, ctx, args[-1] if base in ('RwLock', 'Mutex') and len(args) > 1 else args[0])])
+    if base in ('HashMap', 'FnvHashMap', 'BTreeMap'): return HMap()
+    if base in ('HashSet', 'FnvHashSet', 'BTreeSet'): return HSet()
+    if base in ('Vec', 'VecDeque'): return VecV([])
+    if base == 'String': return StrV([])
+    if base == 'Option': return NONE()
+    if base in ('Arc', 'Rc', 'Box'): return default_of(I, ctx, inner)
+    if base in INT_BITS: return BV(0, INT_BITS[base], base in SIGNED)
+    if base == 'bool': return False
+    if ty == '()': return UNIT
+    tgt = I.resolve_static(ctx.cur_crate, f'<{base} as Default>::default')
+    if tgt is not None and tgt[0] == 'fn': return I.call_fn(ctx, tgt[1], [])
+    raise Unsupported('Default::default for ' + ty)
+
+
+from .models import HMap, HSet
+
+
+@model('re:^<(.*) as (std::default::)?Default>::default$')
+def _(I, ctx):
+    m = re.match(r'^<(.*) as (std::default::)?Default>::default$', ctx.cur_raw if ctx.cur_raw.startswith('<') else ctx.cur_key)
+    return default_of(I, ctx, m.group(1))
+
+
+@model('re:^<(.*) as (std::convert::)?Into<(.*)>>::into$')
+def _(I, ctx, v):
+    m = re.match(r'^<(.*) as (?:std::convert::)?Into<(.*)>>::into$', ctx.cur_key)
+    src, dst = m.group(1), m.group(2)
+    if src == dst: return v
+    key = f'<{dst} as From<{src}>>::from'
+    tgt = I.resolve_static(ctx.cur_crate, key)
+    if tgt is not None: return I.call(ctx, ctx.cur_crate, key, [v])
+    if src in INT_BITS and dst in INT_BITS: return I.cast_int(v, dst)
+    raise Unsupported('Into::into ' + ctx.cur_key)
+@model('re:^<(u16|u32|u64|usize|i32|i64|u128) as From<(u8|u16|u32|bool|char|i32)>>::from$')
+def _(I, ctx, v):
+    m = re.match(r'^<(\w+) as From<(\w+)>>::from$', ctx.cur_key)
+    return I.cast_int(v, m.group(1))
+
+
+@model('char::methods::<impl char>::encode_utf8')
+def _(I, ctx, c, buf):
+    bs = utf8_encode(ctx, c)
+    l, lo, hi = seq_view(buf)
+    for i, b in enumerate(bs): l[lo + i] = b
+    return ValRef(SliceV(l, lo, lo + len(bs), True))
+@model('re:^(std::result::)?Result::err$')
+def _(I, ctx, r): return SOME(r.fields[0]) if r.variant == 'Err' else NONE()
+@model('re:^(std::result::)?Result::(unwrap_or)$')
+def _(I, ctx, r, d): return r.fields[0] if r.variant == 'Ok' else d
+@model('re:^(std::result::)?Result::(unwrap_or_else)$')
+def _(I, ctx, r, f): return r.fields[0] if r.variant == 'Ok' else I.call_value(ctx, ctx.cur_crate, f, [r.fields[0]])
+@model('re:^(std::result::)?Result::(and_then)$')
+def _(I, ctx, r, f): return I.call_value(ctx, ctx.cur_crate, f, [r.fields[0]]) if r.variant == 'Ok' else r
+@model('re:^(std::result::)?Result::(ok_or|as_ref)$')
+def _(I, ctx, r): raise Unsupported(ctx.cur_key)
+@model('core::str::<impl str>::parse')
+def _(I, ctx, r):
+    raw = ctx.cur_raw
+    b = list(str_bytes(r))
+    if 'f64' in raw or 'f32' in raw:
+        # <f64 as FromStr>: success on the decimal forms the tokenizer lets through; the value is an uninterpreted function of the digit text
+        def isdig(x): return ctx.branch((48 <= x.e <= 57) if x.conc() else z3.And(z3.UGE(x.e, 48), z3.ULE(x.e, 57)))
+        i = 0; nd = 0
+        while i < len(b) and isdig(b[i]): i += 1; nd += 1
+        ok = nd > 0
+        if i < len(b) and ctx.branch(bv_is(b[i], 46)):
+            i += 1; nf = 0
+            while i < len(b) and isdig(b[i]): i += 1; nf += 1
+            ok = nd > 0 or nf > 0
+        if ok and i == len(b): return OK(Agg('f64', [('parse', tuple(b))]))
+        # leftover text: an error for every byte that cannot start an exponent / sign / inf / nan
+        for x in b[i:] + (b[:1] if i == 0 else []):
+            plain = z3.Or(z3.And(z3.UGE(x.z(), 48), z3.ULE(x.z(), 57)), x.z() == 46, z3.And(z3.UGE(x.z(), 97), z3.ULE(x.z(), 100)), x.z() == 102, x.z() == 95) if not x.conc() \
+                else (48 <= x.e <= 57 or x.e in (46, 102, 95) or 97 <= x.e <= 100)
+            if not ctx.branch(plain): raise Unsupported('f64 parse of text outside the modelled alphabet [0-9a-df._]')
+        return ERR(Agg('ParseFloatError', []))
+    m = re.search(r'parse::<(\w+)>', raw)
+    if m and m.group(1) in INT_BITS:
+        if all(x.conc() for x in b):
+            try: return OK(BV(int(bytes(x.e for x in b).decode()), INT_BITS[m.group(1)], m.group(1) in SIGNED))
+            except ValueError: return ERR(Agg('ParseIntError', []))
+    raise Unsupported('str::parse ' + raw)
+@model('re:^(std|core)::f64::<impl f64>::(powi|powf|sqrt|abs|floor|ceil)$', 're:^<f64 as (std::ops::)?(Mul|Add|Sub|Div)(<f64>)?>::(mul|add|sub|div)$')
+def _(I, ctx, *a): return Agg('f64', [(ctx.cur_key.rsplit('::', 1)[1],) + tuple(a)])
+@model('re:^<.* as (itertools::)?Itertools>::find_position$')
+def _(I, ctx, it, f):
+    it0 = to_iter(I, ctx, it); i = 0
+    while True:
+        o = it_next(I, ctx, it0)
+        if o.variant == 'None': return NONE()
+        if ctx.branch(I.call_value(ctx, ctx.cur_crate, f, [ValRef(o.fields[0])])): return SOME(TUPLE(BV(i, 64), o.fields[0]))
+        i += 1
+@model('re:^<.* as (itertools::)?Itertools>::(collect_vec)$')
+def _(I, ctx, it): return VecV(_drain(I, ctx, it))
+@model('re:^<.* as (itertools::)?Itertools>::(join)$')
+def _(I, ctx, it, sep):
+    out = []; first = True
+    for x in _drain(I, ctx, it):
+        if not first: out.extend(str_bytes(sep))
+        first = False
+        if not display_into(I, ctx, out, x): return Opaque('join of non-displayable')
+    return StrV(out)
+@model('core::str::<impl str>::trim', 'core::str::<impl str>::trim_start')
+def _(I, ctx, s):
+    cs = decode_all(ctx, s)
+    def is_ws(c):
+        ws = [0x20, 0x85, 0xA0, 0x1680, 0x2028, 0x2029, 0x202F, 0x205F, 0x3000]
+        if c.conc(): return c.e in ws or 9 <= c.e <= 13 or 0x2000 <= c.e <= 0x200A
+        return z3.Or([c.z() == w for w in ws] + [z3.And(z3.UGE(c.z(), 9), z3.ULE(c.z(), 13)), z3.And(z3.UGE(c.z(), 0x2000), z3.ULE(c.z(), 0x200A))])
+    lo, hi = 0, len(cs)
+    while lo < hi and ctx.branch(is_ws(cs[lo])): lo += 1
+    if ctx.cur_key.endswith('::trim'):
+        while hi > lo and ctx.branch(is_ws(cs[hi - 1])): hi -= 1
+    b = []
+    for c in cs[lo:hi]: b.extend(utf8_encode(ctx, c))
+    return ValRef(StrV(b))
+
+
+@model('re:^<impl (.*) as (.*)>::(\\w+)$')
+def _(I, ctx, *args):
+    m = re.match(r'^<impl (.*) as (.*)>::(\w+)$', ctx.cur_key)
+    a0 = deref(args[0])
+    if isinstance(a0, Agg) and not a0.name.startswith(('tuple', 'fnitem')):
+        key = f'<{a0.name} as {m.group(2)}>::{m.group(3)}'
+        if I.resolve_static(ctx.cur_crate, key) is not None:
+            a = list(args)
+            if not isinstance(a[0], Ref): a[0] = ValRef(a0)
+            return I.call(ctx, ctx.cur_crate, key, a)
+    tr = m.group(2).split('<')[0].split('::')[-1]
+    if tr in ('AsRef', 'Borrow', 'Into', 'AsMut'): return args[0]
+    raise Unsupported('dispatch on impl Trait argument: ' + ctx.cur_key)
+@model('re:^<.* as (itertools::)?Itertools>::get$')
+def _(I, ctx, it, rng):
+    xs = _drain(I, ctx, it); n = len(xs); rng = deref1(rng)
+    def clamp(v):
+        if v.conc(): return min(v.e, n)
+        for k in range(n):
+            if ctx.branch(bv_is(v, k)): return k
+        return n
+    nm = rng.name
+    if nm == 'Range': lo, hi = clamp(rng.fields[0]), clamp(rng.fields[1])
+    elif nm == 'RangeFrom': lo, hi = clamp(rng.fields[0]), n
+    elif nm == 'RangeTo': lo, hi = 0, clamp(rng.fields[0])
+    elif nm == 'RangeFull': lo, hi = 0, n
+    else: raise Unsupported('Itertools::get with ' + nm)
+    return ListIt(xs[lo:hi] if lo <= hi else [])
+
+
+# ------------------------------------------------------------------ file system as a nondeterministic environment
+@model('re:^(std::fs::)?File::open$')
+def _(I, ctx, path):
+    data = getattr(ctx, 'env_file_bytes', None)
+    if data is None: raise Unsupported('File::open without an environment provided by the harness')
+    return OK(Agg('File', [list(data), 0]))
+@model('re:^<(std::fs::)?File as (std::io::)?Read>::read_to_end$')
+def _(I, ctx, f, buf):
+    fl = deref(f); v = deref(buf)
+    rest = fl.fields[0][fl.fields[1]:]
+    v.items.extend(rest); fl.fields[1] = len(fl.fields[0])
+    return OK(BV(len(rest), 64))
+@model('re:^<(std::fs::)?File as (std::io::)?Read>::read_to_string$')
+def _(I, ctx, f, buf):
+    raise Unsupported('read_to_string: UTF-8 validation of environment bytes is not modelled')
+@model('re:^<(std::result::)?Result<.*, std::io::Error> as (std::ops::)?FromResidual<.*>>::from_residual$')
+def _(I, ctx, r): return ERR(r.fields[0])
+
+
+def utf8_valid(ctx, b):
+    """UTF-8 validation of a list of BV8 exactly as core::str::from_utf8 (forks on byte classes)"""
+    def rng(x, lo, hi): return ctx.branch((lo <= x.e <= hi) if x.conc() else z3.And(z3.UGE(x.z(), lo), z3.ULE(x.z(), hi)))
+    i, n = 0, len(b)
+    while i < n:
+        x = b[i]
+        if rng(x, 0, 0x7F): i += 1; continue
+        if rng(x, 0xC2, 0xDF):
+            if i + 1 >= n or not rng(b[i + 1], 0x80, 0xBF): return False
+            i += 2; continue
+        if rng(x, 0xE0, 0xEF):
+            if i + 2 >= n: return False
+            if ctx.branch(bv_is(x, 0xE0)): lo, hi = 0xA0, 0xBF
+            elif ctx.branch(bv_is(x, 0xED)): lo, hi = 0x80, 0x9F
+            else: lo, hi = 0x80, 0xBF
+            if not rng(b[i + 1], lo, hi) or not rng(b[i + 2], 0x80, 0xBF): return False
+            i += 3; continue
+        if rng(x, 0xF0, 0xF4):
+            if i + 3 >= n: return False
+            if ctx.branch(bv_is(x, 0xF0)): lo, hi = 0x90, 0xBF
+            elif ctx.branch(bv_is(x, 0xF4)): lo, hi = 0x80, 0x8F
+            else: lo, hi = 0x80, 0xBF
+            if not rng(b[i + 1], lo, hi) or not rng(b[i + 2], 0x80, 0xBF) or not rng(b[i + 3], 0x80, 0xBF): return False
+            i += 4; continue
+        return False
+    return True
+
+
+@model('re:^(std::string::)?String::from_utf8$')
+def _(I, ctx, v):
+    b = list(seq_items(v))
+    if utf8_valid(ctx, b): return OK(StrV(b))
+    return ERR(Agg('FromUtf8Error', [VecV(b)]))
+@model('std::str::from_utf8', 'core::str::from_utf8')
+def _(I, ctx, v):
+    b = list(seq_items(v))
+    if utf8_valid(ctx, b): return OK(ValRef(StrV(b)))
+    return ERR(Agg('Utf8Error', []))
+@model('re:^(std::string::)?String::from_utf8_lossy$')
+def _(I, ctx, v):
+    b = list(seq_items(v))
+    if utf8_valid(ctx, b): return Agg('Cow', [ValRef(StrV(b))], 'Borrowed', 0)
+    raise Unsupported('from_utf8_lossy on invalid UTF-8')
+@model('re:^(std::string::)?FromUtf8Error::into_bytes$')
+def _(I, ctx, e): return e.fields[0]
